@@ -461,6 +461,51 @@ func (prop) Child(b core.Batch, o *core.Obs) {
 					note(delivery{Mode: mode, Kind: "whole"}, got, true)
 				}
 			}
+			if p.Type != "tftp" {
+				// a source that keeps sending: the same sequence six times over from one address (24 and more
+				// datagrams, well past any per-source reply allowance - replies may stop, reports may not). tftp
+				// is left out: it drops a source's datagrams unprocessed once its reply allowance is used up, by
+				// design (see the assumptions)
+				connNo++
+				ip := fmt.Sprintf("198.%d.%d.%d", 51+(connNo>>24)&3, (connNo>>16)&255+1, (connNo)&255)
+				for round := 0; round < 6; round++ {
+					ev0 := lab.Events.Len()
+					base := 21000 + round*100
+					for i, dg := range chunks {
+						srv.L.SendUDP(lab.UDPAddr("10.0.0.1", p.Port), lab.UDPAddr(ip, base+i), dg)
+						want := 0
+						for _, x := range per[i] {
+							if !strings.HasPrefix(x, "store:") {
+								want++
+							}
+						}
+						port := base + i
+						lab.Events.WaitFor(ev0, func(evs []lab.Captured) bool { return len(p.Extract(udpFilter(evs, ip, port))) >= want }, 2*time.Second)
+					}
+					lab.Events.Settle(2*time.Millisecond, 12*time.Millisecond)
+					var got []string
+					all := lab.Events.Since(ev0)
+					for i := range chunks {
+						got = append(got, p.Extract(udpFilter(all, ip, base+i))...)
+					}
+					// past its reply allowance memcached still reports the command but does not execute it: the
+					// storage event of a set/add/replace is not a command report and is left out of this comparison
+					noStore := func(l []string) []string {
+						var o []string
+						for _, x := range l {
+							if !strings.HasPrefix(x, "store:") {
+								o = append(o, x)
+							}
+						}
+						return o
+					}
+					if g, e := noStore(got), noStore(expect); !eq(g, e) {
+						note(delivery{Mode: "same-source-history", Kind: fmt.Sprintf("round-%d", round)}, g, true)
+					} else {
+						note(delivery{Mode: "same-source-history", Kind: fmt.Sprintf("round-%d", round)}, expect, false)
+					}
+				}
+			}
 		}
 		ob.Variants = len(variants)
 		o.EmitX("scn", ob)
